@@ -146,6 +146,9 @@ def worker(chunk, seed, tier):
             try:
                 obj, dkw, lkw = spec.build(case, seed)
             except Exception as exc:  # noqa: BLE001
+                if type(exc).__name__ == "Infeasible":
+                    part.outcome("generator", "infeasible")
+                    continue
                 raise RuntimeError(f"harness cannot build {fname} {case}: {exc!r}") from exc
             path = str(tmp / spec.fname)
             files = []
